@@ -68,6 +68,7 @@ type Exec struct {
 	fnKey  string
 	inlineDepth int
 	covers bool
+	inInit bool // executing a package initialiser: calls have no effect on the heap
 	globalsInit map[string]bool
 }
 
@@ -88,6 +89,7 @@ type Frame struct {
 	pkg    *types.Package
 	curPos token.Pos
 	iters  map[*ssa.Range]string // ghost name of visited set
+	iterDom map[*ssa.Range]Term  // key-set array term of the ranged map when the range started
 }
 
 type retInfo struct {
@@ -413,7 +415,7 @@ func (x *Exec) ptrTerm(p PtrV) Term {
 
 func (x *Exec) newFrame(fn *ssa.Function, parent *Frame) *Frame {
 	fr := &Frame{x: x, fn: fn, reg: map[ssa.Value]Value{}, cells: map[*ssa.Alloc]*Cell{}, params: map[string]Value{},
-		parent: parent, edgePC: map[[2]int]Term{}, loops: map[int]*loopInfo{}, iters: map[*ssa.Range]string{}}
+		parent: parent, edgePC: map[[2]int]Term{}, loops: map[int]*loopInfo{}, iters: map[*ssa.Range]string{}, iterDom: map[*ssa.Range]Term{}}
 	if parent != nil {
 		fr.depth = parent.depth + 1
 	}
